@@ -162,8 +162,9 @@ int main(int argc, char** argv) {
   for (unsigned n : {2u, 3u, 4u, 5u, 7u}) grids.push_back({"linear" + std::to_string(n), lin(n, -1.0, 3.0)});
   for (unsigned n : {2u, 3u, 5u}) grids.push_back({"log" + std::to_string(n), lg(n, 0.1, 20.0)});
   grids.push_back({"user-a", {-2.0, -1.63, 1.48, 4.33, 9.0}}); grids.push_back({"user-b", {0.01, 0.0158, 0.05, 2.0}}); grids.push_back({"user-c", {-5.0, 1.0, 1.001, 100.0}});
-  std::vector<TimeCfg> tcs = {{0, 0, false}, {1.5, 0, false}, {1.5, 0.5, false}, {0, 2, false}, {1.5, 2, false}, {1.5, 0.5, true}, {0, 2, true}};
-  if (ar.reduced) { grids.resize(3); tcs = {{1.5, 0.5, false}, {0, 2, true}}; }
+  // elapsed time may be negative (Evolve(-dt) without numerics just moves the clock back): "any t-t_ini"
+  std::vector<TimeCfg> tcs = {{0, 0, false}, {1.5, 0, false}, {1.5, 0.5, false}, {0, 2, false}, {1.5, 2, false}, {1.5, 0.5, true}, {0, 2, true}, {1.5, -1.25, false}, {0, -0.6, false}};
+  if (ar.reduced) { grids.resize(3); tcs = {{1.5, 0.5, false}, {0, 2, true}, {1.5, -1.25, false}}; }
   long long caseno = 0;
   for (int d : dims) for (auto& g : grids) for (auto& tc : tcs) { if ((caseno++ % ar.nshards) != ar.shard) continue; run_grid(d, g.second, g.first, tc, ar.reduced); }
   if (ar.shard == 0 && !ar.reduced) scratch_sequences();
